@@ -20,6 +20,8 @@ DECIDED_MORE = ('Also: request.method is computed from the environ on every read
 DECIDED = DECIDED + ' ' + DECIDED_MORE
 DECIDED_R6 = ('Round 6: candidate list evaluated with module constants in scope; every header handed to the response constructor is stored (Allow="" included); the candidate loop may live in resolve() (lookup() returning None): 405 then needs the is-None edge of a search loop that binds None in its else-branch only.')
 DECIDED = DECIDED + ' ' + DECIDED_R6
+DECIDED_R7 = ('Round 7: no 405 is built outside resolve / handler; Route.methods hands out a copy; the Route registered by _add is fresh or the one the tree holds.')
+DECIDED = DECIDED + ' ' + DECIDED_R7
 NOT_DECIDED = 'which route the path selects (C01).'
 ASSUMPTIONS = ['dict and list behave as in CPython', 'C01 selects the route']
 
